@@ -156,15 +156,16 @@ Theorem agree_implies_holds k :
   Forall (fun c => NoDup (keys (c_kw c))) (k_calls k) ->
   (k_forward k = true -> forallb plain_step (k_steps k) = true) ->
   (k_forward k = false -> partial_ok (k_steps k) (k_partial k) = true) ->
+  kinds_ok (k_f k) (k_steps k) (k_wkinds k) ->
   agree k = true -> holds k = true.
 Proof.
-  intros WF NE NZ NDc PL PA AG.
+  intros WF NE NZ NDc PL PA KO AG.
   unfold agree in AG.
   destruct (run_steps (k_f k) (k_steps k)) as [gs e] eqn:RS.
   repeat match goal with H : _ && _ = true |- _ => apply andb_true_iff in H as [? ?] end.
-  pose proof (model_holds (k_f k) (k_steps k) (k_forward k) (k_partial k) (k_calls k) WF NE NZ NDc PL PA) as MH.
+  pose proof (model_holds (k_f k) (k_steps k) (k_forward k) (k_partial k) (k_wkinds k) (k_calls k) WF NE NZ KO NDc PL PA) as MH.
   unfold holds, model_case in MH. unfold holds.
-  cbn [k_f k_fsig k_fasync k_calls k_direct k_steps k_forward k_partial k_levels k_fail k_top_calls k_lower_saws k_fsig_after k_fdict_after k_again] in MH.
+  cbn [k_f k_fsig k_fasync k_calls k_direct k_steps k_forward k_partial k_levels k_fail k_top_calls k_lower_saws k_fsig_after k_fdict_after k_again k_wkinds k_extra] in MH.
   rewrite RS in MH. cbn [fst snd] in MH.
   rewrite (sig_of_func_sig _ (wf_len _ WF)) in *.
   repeat match goal with
@@ -186,8 +187,11 @@ Proof.
     rewrite (levels_ok_agree (k_f k) (f_async (k_f k)) (k_steps k) (func_sig (k_f k)) (f_id (k_f k)) gs (k_levels k) e H) end.
   rewrite dict_equiv_refl in MH.
   destruct e as [ex|].
-  - destruct (k_top_calls k); [|discriminate]. destruct (k_lower_saws k); [exact MH | discriminate].
-  - match goal with H : list_eqb call_obs_eqb _ _ && _ = true |- _ => apply andb_true_iff in H as [? ?] end.
+  - revert MH. repeat match goal with H : _ && _ = true |- _ => apply andb_true_iff in H as [? ?] end. intro MH.
+    match goal with H : Nat.eqb (k_extra k) 0 = true |- _ => apply (proj1 (nat_eqb_eq _ _)) in H; rewrite H end.
+    destruct (k_top_calls k); [|discriminate]. destruct (k_lower_saws k); [exact MH | discriminate].
+  - revert MH. repeat match goal with H : _ && _ = true |- _ => apply andb_true_iff in H as [? ?] end. intro MH.
+    match goal with H : Nat.eqb (k_extra k) _ = true |- _ => apply (proj1 (nat_eqb_eq _ _)) in H; rewrite H end.
     match goal with H : list_eqb call_obs_eqb _ _ = true |- _ => apply (proj1 (list_eqb_eq _ call_obs_eqb_eq _ _)) in H; rewrite <- H end.
     match goal with H : list_eqb (list_eqb call_eqb) _ _ = true |- _ =>
       apply (proj1 (list_eqb_eq _ (list_eqb_eq _ call_eqb_eq) _ _)) in H; rewrite <- H end.
